@@ -44,6 +44,17 @@ func linearAttempt(c *Ctx) {
 		if ok && tk[0].Parent() == fn {
 			ok = P.Before(fn, an.Is(nows[0]), tk[0])
 		}
+		// ... with the caller's rate as its period (a rate "rounded" or otherwise adjusted can become a non-positive
+		// period for a valid small rate, on which NewTicker panics inside the goroutine)
+		if len(tk) == 1 && len(fn.Params) >= 2 {
+			okp := srcIs(P, callArg(tk[0], 0), fn.Params[1]) && len(P.SourcesDeep(callArg(tk[0], 0))) == 1
+			if !okp {
+				if srcs := P.SourcesDeep(callArg(tk[0], 0)); len(srcs) == 1 && srcs[0] == ssa.Value(fn.Params[1]) {
+					okp = true
+				}
+			}
+			q.add("PROV", "the ticker's period is the rate the caller gave", okp, pickS(okp, "time.NewTicker(rate)", "the ticker is not created with the rate parameter itself"), tk[0])
+		}
 		q.add("PATH", "the ticker is armed after the first timestamp was taken", ok, pickS(ok, "time.Now() precedes time.NewTicker (which runs in the goroutine started afterwards)", "the ticker is created before the first value's time.Now(): its first tick can carry an earlier time than the value already published"), tk...)
 	}
 	// every returned value is the channel
